@@ -14,6 +14,34 @@ const GRANULARITY_US: u64 = 1_000;
 /// MAX_BURST_PACKETS (10) minimum-size datagrams: below this the pacer has never armed a departure time
 const PACER_BURST_BYTES: u64 = 12_000;
 
+/// bytes an endpoint can send before its pacer may hold packets back: CUBIC's pacer releases bursts of 10 datagrams
+/// (recovery/pacing.rs), BBR's releases `send_quantum` = one or two datagrams (recovery/bbr/pacing.rs)
+/// upper bound of the time the pacer can hold a packet back after the last congestion-controlled packet left:
+/// one pacing interval = burst / (N * cwnd / srtt) with N >= 1.25, the largest RTT estimate and the smallest window seen
+/// (CUBIC: burst of 10 datagrams of the largest size configured; BBR paces at its own bandwidth estimate: no bound), doubled for safety
+fn pacer_interval_bound_us(sc: &Scenario, ep: usize, srtt_us: u64, min_cwnd: u64) -> u64 {
+    let cfg = if ep == 0 { &sc.server } else { &sc.clients[(ep - 1).min(sc.clients.len() - 1)].endpoint };
+    let srtt = srtt_us.max(1_000);
+    match cfg.cc {
+        crate::scenario::Cc::Cubic => {
+            let burst = 10 * cfg.mtu.2 as u64;
+            let cwnd = min_cwnd.clamp(2_400, 1 << 40);
+            2 * (burst * srtt * 4 / (5 * cwnd)).max(GRANULARITY_US)
+        }
+        // (observed on the pinned tree: with a collapsed bandwidth estimate BBR's pacer held everything, PTO probes
+        // included, for more than 3 s at an RTT of 20 ms - no usable bound)
+        crate::scenario::Cc::Bbr => u64::MAX / 4,
+    }
+}
+
+fn pacer_burst_bytes(sc: &Scenario, ep: usize) -> u64 {
+    let cfg = if ep == 0 { &sc.server } else { &sc.clients[(ep - 1).min(sc.clients.len() - 1)].endpoint };
+    match cfg.cc {
+        crate::scenario::Cc::Cubic => PACER_BURST_BYTES,
+        crate::scenario::Cc::Bbr => 1_200,
+    }
+}
+
 fn max_ack_delay_us(sc: &Scenario, ep: usize) -> u64 {
     let cfg = if ep == 0 { &sc.server } else { &sc.clients[ep - 1].endpoint };
     cfg.limits.max_ack_delay_ms.map(|v| v as u64).unwrap_or(25) * 1000
@@ -29,6 +57,8 @@ pub struct AckSummary {
     pub ack_frames: usize,
     pub prompt_checked: usize,
     pub lost_ack_datagrams: usize,
+    /// packets sent without an ACK frame (a DATAGRAM frame filled them) while an acknowledgement was pending
+    pub ack_squeezed_out: usize,
 }
 
 struct RxPkt {
@@ -59,6 +89,9 @@ pub fn check_acks(sc: &Scenario, out: &Outcome, _obs: &mut Obs) -> Result<AckSum
     let mut pruned_upto: HashMap<(usize, u64), u64> = HashMap::new();
     let mut cc_bytes: HashMap<(usize, u64), u64> = HashMap::new();
     let mut last_srtt: HashMap<(usize, u64), u64> = HashMap::new();
+    let mut min_cwnd: HashMap<(usize, u64), u64> = HashMap::new();
+    // instant of the last congestion-controlled packet sent
+    let mut last_cc_tx: HashMap<(usize, u64), u64> = HashMap::new();
     let mut prev_tx_t: HashMap<(usize, u64), u64> = HashMap::new();
     let mut cur_tx_t: HashMap<(usize, u64), u64> = HashMap::new();
 
@@ -75,10 +108,12 @@ pub fn check_acks(sc: &Scenario, out: &Outcome, _obs: &mut Obs) -> Result<AckSum
                 closing.entry(key).or_insert(r.t_us);
             }
             Ev::AckRangeDropped { lo, hi } => dropped_ranges.entry(key).or_default().push((*lo, *hi)),
-            Ev::Metrics { srtt_us, .. } => {
+            Ev::Metrics { srtt_us, cwnd, .. } => {
                 // the pacer's next departure time was computed from the RTT estimate of the time: use the largest seen
                 let e = last_srtt.entry(key).or_insert(0);
                 *e = (*e).max(*srtt_us);
+                let w = min_cwnd.entry(key).or_insert(u64::MAX);
+                *w = (*w).min(*cwnd as u64);
             }
             Ev::Rx { space, pn, frames, .. } => {
                 let set = seen.entry((r.ep, r.conn, *space)).or_default();
@@ -153,6 +188,13 @@ pub fn check_acks(sc: &Scenario, out: &Outcome, _obs: &mut Obs) -> Result<AckSum
                 if frames.iter().any(|f| matches!(f, WFrame::ConnectionClose { .. })) {
                     closing.entry(key).or_insert(r.t_us);
                 }
+                if *space == Space::App
+                    && frames.iter().any(|f| matches!(f, WFrame::Datagram { .. }))
+                    && !frames.iter().any(|f| matches!(f, WFrame::Ack { .. }))
+                    && pending.get(&key).map(|p| !p.is_empty()).unwrap_or(false)
+                {
+                    sum.ack_squeezed_out += 1;
+                }
                 for f in frames {
                     let WFrame::Ack { ranges, .. } = f else { continue };
                     sum.ack_frames += 1;
@@ -200,7 +242,8 @@ pub fn check_acks(sc: &Scenario, out: &Outcome, _obs: &mut Obs) -> Result<AckSum
                                         // (the pacing interval is at most 10 datagrams / (1.25 * cwnd / srtt) <= 4 * srtt at the minimum window)
                                         let _idle_gap = prev_tx_t.get(&key).map(|t| *t <= pkt.t).unwrap_or(true);
                                         // the pacer can only hold packets back once its burst capacity (10 datagrams) was used up
-                                        let paced = cc_bytes.get(&key).copied().unwrap_or(0) >= PACER_BURST_BYTES;
+                                        let paced = cc_bytes.get(&key).copied().unwrap_or(0) >= pacer_burst_bytes(sc, r.ep)
+                                            && r.t_us <= last_cc_tx.get(&key).copied().unwrap_or(0) + pacer_interval_bound_us(sc, r.ep, last_srtt.get(&key).copied().unwrap_or(0), min_cwnd.get(&key).copied().unwrap_or(u64::MAX));
                                         let key_s = if paced {
                                             "c08:late-ack:behind-pacer"
                                         } else if pkt.out_of_order && pkt.after_pruning && r.t_us <= pkt.t + mad + GRANULARITY_US {
@@ -235,6 +278,7 @@ pub fn check_acks(sc: &Scenario, out: &Outcome, _obs: &mut Obs) -> Result<AckSum
                 if let Some(Ev::Tx { frames: Ok(fr), .. }) = i.checked_sub(1).map(|j| &out.recs[j].ev) {
                     if fr.iter().any(|f| !matches!(f, WFrame::Ack { .. } | WFrame::Padding(_))) {
                         *cc_bytes.entry(key).or_default() += *len as u64;
+                        last_cc_tx.insert(key, r.t_us);
                     }
                 }
             }
@@ -268,7 +312,10 @@ pub fn check_acks(sc: &Scenario, out: &Outcome, _obs: &mut Obs) -> Result<AckSum
             // generous slack before the end of the observation window
             if deadline + 5_000 < end {
                 // same known finding as above: the ACK may still be waiting behind the pacer when the observation ends
-                if cc_bytes.get(key).copied().unwrap_or(0) >= PACER_BURST_BYTES && _obs.step_over_known("c08:late-ack:behind-pacer") {
+                if cc_bytes.get(key).copied().unwrap_or(0) >= pacer_burst_bytes(sc, key.0)
+                    && end <= last_cc_tx.get(key).copied().unwrap_or(0) + pacer_interval_bound_us(sc, key.0, last_srtt.get(key).copied().unwrap_or(0), min_cwnd.get(key).copied().unwrap_or(u64::MAX))
+                    && _obs.step_over_known("c08:late-ack:behind-pacer")
+                {
                     continue;
                 }
                 return Err(Fail::new(
